@@ -17,13 +17,17 @@ func (t *tr2) stmts(list []ast.Stmt, c *fctx, rest func() string) string {
 }
 
 // escapes: the statement can leave by return / break / continue (of an enclosing construct).
-func escapes(n ast.Node) bool {
+func escapes(n ast.Node) bool { return escapesIn(n, false) }
+
+// escapesIn: inSwitch = n is the body of a switch (its own breaks do not leave it by a jump the
+// translation cannot express: they continue with what follows the switch).
+func escapesIn(n ast.Node, inSwitch0 bool) bool {
 	if n == nil {
 		return false
 	}
 	found := false
-	var walk func(n ast.Node, inLoop bool)
-	walk = func(n ast.Node, inLoop bool) {
+	var walk func(n ast.Node, inLoop, inSwitch bool)
+	walk = func(n ast.Node, inLoop, inSwitch bool) {
 		ast.Inspect(n, func(m ast.Node) bool {
 			if found || m == nil {
 				return false
@@ -33,18 +37,24 @@ func escapes(n ast.Node) bool {
 				found = true
 				return false
 			case *ast.BranchStmt:
-				if !inLoop || x.Label != nil || x.Tok == token.GOTO {
+				ok := x.Label == nil && ((x.Tok == token.BREAK && (inLoop || inSwitch)) || (x.Tok == token.CONTINUE && inLoop))
+				if !ok {
 					found = true
 				}
 				return false
 			case *ast.ForStmt:
 				if m != n {
-					walk(x.Body, true)
+					walk(x.Body, true, false)
 					return false
 				}
 			case *ast.RangeStmt:
 				if m != n {
-					walk(x.Body, true)
+					walk(x.Body, true, false)
+					return false
+				}
+			case *ast.SwitchStmt:
+				if m != n { // a break inside belongs to that switch; a continue still to the loop around
+					walk(x.Body, inLoop, true)
 					return false
 				}
 			case *ast.FuncLit:
@@ -53,7 +63,7 @@ func escapes(n ast.Node) bool {
 			return true
 		})
 	}
-	walk(n, false)
+	walk(n, false, inSwitch0)
 	return found
 }
 
@@ -129,6 +139,11 @@ func (t *tr2) assignedOutside(n ast.Node, exclude ...types.Object) []types.Objec
 			}
 			if sx, _, f := t.extFieldOf(x.Fun); f != nil && f.ext == "call" {
 				add(sx.X)
+			}
+			if sf, ok := x.Fun.(*ast.SelectorExpr); ok {
+				if fn, kind, _ := t.extMethodOf(sf); fn != nil && kind == "call" {
+					add(sf.X)
+				}
 			}
 			if sel, ok := x.Fun.(*ast.SelectorExpr); ok { // call of a receiver-mutating method
 				if s := t.info.Selections[sel]; s != nil && s.Kind() == types.MethodVal {
@@ -379,6 +394,20 @@ func (t *tr2) exprStmt(x *ast.ExprStmt, c *fctx, rest func() string) string {
 				if _, isStr := t.constString(a); isStr {
 					continue
 				}
+				if ac, isCall := a.(*ast.CallExpr); isCall {
+					var aid *ast.Ident
+					switch af := ac.Fun.(type) {
+					case *ast.SelectorExpr:
+						aid = af.Sel
+					case *ast.Ident:
+						aid = af
+					}
+					if aid != nil {
+						if af, ok := t.info.Uses[aid].(*types.Func); ok && af.Pkg() != nil && ignoredCalls2[af.Pkg().Path()+"."+af.Name()] {
+							continue // an operand computed by an ignored function is dropped with the call
+						}
+					}
+				}
 				at := t.info.TypeOf(a)
 				if _, isInt := intKind(at); isInt || isBool(at) || isBytes(at) || isErrorType(at) {
 					_ = t.expr(a, &bs)
@@ -447,6 +476,9 @@ func (t *tr2) stmt(s ast.Stmt, c *fctx, rest func() string) string {
 		}
 		switch x.Tok {
 		case token.BREAK:
+			if c.brkK != nil { // the innermost breakable construct is a switch: go on after it
+				return c.brkK()
+			}
 			if c.brk != "" {
 				return c.brk
 			}
@@ -512,6 +544,31 @@ func (t *tr2) assignStmt(x *ast.AssignStmt, c *fctx, rest func() string) string 
 			for i, l := range x.Lhs {
 				t.assign(l, vals[i], &bs)
 			}
+			return wrapBinds(bs, rest())
+		}
+		if ta, isTA := x.Rhs[0].(*ast.TypeAssertExpr); isTA && len(x.Rhs) == 1 && len(x.Lhs) == 2 && ta.Type != nil {
+			// v, ok := x.(T) on a sum interface
+			si := sumOf(t.info.TypeOf(ta.X))
+			want := t.info.TypeOf(ta.Type)
+			impl := implName(want)
+			found := false
+			if si != nil {
+				for _, i := range si.impls {
+					found = found || i == impl
+				}
+			}
+			if !found {
+				t.fail(x, "type assertion outside the subset (comma-ok assertion of a sum interface to a registered implementation)")
+				return rest()
+			}
+			t.ctype(ta.X, t.info.TypeOf(ta.X))
+			mod := t.g.mods[modPath+"/"+si.pkg]
+			v := t.expr(ta.X, &bs)
+			t1, t2 := t.freshTmp(), t.freshTmp()
+			bs = append(bs, bind{let: true, pat: "'(" + t1 + ", " + t2 + ")",
+				rhs: "(match " + v + " with | " + t.q(mod, sumCtor(si, impl)) + " v_ => (v_, true) | _ => (" + t.zero(x, want) + ", false) end)"})
+			t.assign(x.Lhs[0], t1, &bs)
+			t.assign(x.Lhs[1], t2, &bs)
 			return wrapBinds(bs, rest())
 		}
 		if len(x.Rhs) == 1 {
@@ -663,21 +720,25 @@ func (t *tr2) switchStmt(x *ast.SwitchStmt, c *fctx, rest func() string) string 
 		tag = t.freshTmp()
 		pre = append(pre, bind{let: true, pat: tag, rhs: t.expr(x.Tag, &pre)})
 	}
-	join := !escapes(x.Body)
+	join := !escapesIn(x.Body, true)
 	var pat, val string
 	end := rest
 	if join {
 		pat, val = tuple(t.assignedOutside(x.Body))
 		end = func() string { return "(GOk " + val + ")" }
 	}
+	// break inside this switch = go on with what follows it
+	sc := *c
+	sc.brkK = end
+	c = &sc
 	var deflt *ast.CaseClause
 	type arm struct{ cond, body string }
 	arms := []arm{}
 	for _, cl := range x.Body.List {
 		cc := cl.(*ast.CaseClause)
 		for _, bsn := range cc.Body {
-			if br, ok := bsn.(*ast.BranchStmt); ok {
-				t.fail(br, "branch statement (%s) directly in a switch clause unsupported", br.Tok)
+			if br, ok := bsn.(*ast.BranchStmt); ok && br.Tok == token.FALLTHROUGH {
+				t.fail(br, "fallthrough unsupported")
 			}
 		}
 		if cc.List == nil {
